@@ -68,7 +68,7 @@ def first_diff(a, b):
 def run(tier, seed, replay=None):
     res = Result("C10", tier, seed, RULE)
     rng = rng_for(seed, "C10")
-    n = 150 if tier == "quick" else 2500
+    n = 150 if tier == "quick" else 6000
     nperm = 3 if tier == "quick" else 5
     cfg = GenCfg(p_fk=0.25, p_surplus=0.3, p_absent=0.15, p_null=0.1, p_inherits=0.5)
     projs = [projects.gen_valid_project(rng, cfg) for _ in range(n - n // 4)]
